@@ -705,7 +705,7 @@ def execute_cfgs(ctx, cfgs, histories=None, initial=None):
 SEC_MENU = [(b"s",), (b"S",), (b"s", b"x"), (b"S", b"X")]
 KEY_MENU = [b"k", b"K", b"j"]
 VAL_MENU = [b"1", b' a"\\#', b""]
-_LAB = re.compile(r"(\w+)(?:\((\d+),(\d+)(?:,(\d+))?\))?$")
+_LAB = re.compile(r"(\w+)(?:\((\d+)(?:,(\d+))?(?:,(\d+))?\))?$")
 
 
 def node_cfg(st):
@@ -904,6 +904,217 @@ def ops_phase(ctx, book, fut, mi, variant, tid0):
     return records, meta, tid
 
 
+# --------------------------------------------------------------------------- R+T: one file, a long-lived owner and external writers
+SH_KEYS = {1: ((b"user",), b"name"), 2: ((b"alias",), b"co")}
+SH_VALS = {1: {1: b"alice", 2: b"carol"}, 2: {1: b"c1", 2: b"c2"}}
+SH_T0 = 1_600_000_000 * 10**9
+SH_SITE = {"ReadFresh": "dulwich/repo.py:Repo.get_config", "WritePreserves": "dulwich/repo.py:Repo.get_config+ConfigFile.write_to_path",
+           "RefusedAtomic": "dulwich/config.py:ConfigFile.write_to_path"}
+
+
+class SharedWorld:
+    """a real repository whose .git/config is shared by a long-lived Repo object (the owner), the git binary and a
+    second dulwich handle; after every rewrite the file has the same size and the same mtime as before"""
+
+    def __init__(self, ctx, n):
+        from dulwich.repo import Repo
+        self.root = os.path.join(ctx.tmpdir(f"shared{n}"), "r")
+        Repo.init(self.root, mkdir=True).close()
+        self.path = os.path.join(self.root, ".git", "config")
+        self.env = R.git_env(os.path.dirname(self.root))
+        for k in (1, 2):
+            self.git_set(k, 1)
+        with open(self.path, "rb") as f:
+            self.template = f.read()
+
+    def git_set(self, k, v):
+        import subprocess
+        sec, name = SH_KEYS[k]
+        subprocess.run([b"git", b"config", b"-f", self.path.encode(), b".".join(sec) + b"." + name, SH_VALS[k][v]], env=self.env, check=True)
+
+    def observe(self):
+        with open(self.path, "rb") as f:
+            data = f.read()
+        ok, cfg, _ = R.dul_read(data)
+        m = R.meaning(R.flat(cfg)) if ok else {}
+        out = []
+        for k in (1, 2):
+            sec, name = SH_KEYS[k]
+            vals = m.get(R.fullkey(sec[0], False, b"", name))
+            inv = {b: i for i, b in SH_VALS[k].items()}
+            out.append(0 if not vals else inv.get(vals[-1], 9) if len(vals) == 1 else 9)
+        return out, data
+
+    def same_tick(self):
+        os.utime(self.path, ns=(SH_T0, SH_T0))
+
+    def run(self, labels):
+        """execute one history on a fresh long-lived Repo; -> events (ConfigSharedTrace vocabulary)"""
+        from dulwich.config import ConfigFile
+        from dulwich.repo import Repo
+        with open(self.path, "wb") as f:
+            f.write(self.template)
+        self.same_tick()
+        repo = Repo(self.root)
+        ev = []
+        try:
+            for lab in labels:
+                act, a = parse_label(lab)
+                e = {"op": "", "w": 0, "k": 0, "v": 0, "ret": 0, "raised": False, "lock": False, "same": True}
+                if act == "OwnerRead":
+                    sec, name = SH_KEYS[a[0]]
+                    try:
+                        got = repo.get_config().get(sec, name)
+                    except KeyError:
+                        got = None
+                    inv = {b: i for i, b in SH_VALS[a[0]].items()}
+                    e.update(op="read", k=a[0], ret=0 if got is None else inv.get(got, 9))
+                elif act == "OwnerSet":
+                    sec, name = SH_KEYS[a[0]]
+                    c = repo.get_config()
+                    c.set(sec, name, SH_VALS[a[0]][a[1]])
+                    c.write_to_path()
+                    e.update(op="oset", k=a[0], v=a[1])
+                elif act == "ExtSet":
+                    if a[0] == 1:
+                        self.git_set(a[1], a[2])
+                    else:
+                        sec, name = SH_KEYS[a[1]]
+                        c = ConfigFile.from_path(self.path)
+                        c.set(sec, name, SH_VALS[a[1]][a[2]])
+                        c.write_to_path()
+                    e.update(op="ext", w=a[0], k=a[1], v=a[2])
+                elif act == "Refused":
+                    # the owner regenerates the file from what it holds; a section git does not allow (newline in the
+                    # subsection, refused by the writer) comes right after the first key's section
+                    c = repo.get_config()
+                    c2 = ConfigFile()
+                    for sct in c.sections():
+                        for k, v in c.items(sct):
+                            c2.add(sct, k, v)
+                        if sct == SH_KEYS[1][0]:
+                            c2.set((b"zz", b"a\nb"), b"k", b"v")
+                    before = self.observe()[1]
+                    try:
+                        c2.write_to_path(self.path)
+                    except Exception:       # noqa: BLE001
+                        e["raised"] = True
+                    e["lock"] = os.path.exists(self.path + ".lock")
+                    if e["lock"]:
+                        os.remove(self.path + ".lock")
+                    e.update(op="refused", same=self.observe()[1] == before)
+                else:
+                    raise MachineryError(f"unknown action {lab}")
+                if act != "OwnerRead":
+                    self.same_tick()
+                e["after"] = self.observe()[0]
+                ev.append(e)
+        finally:
+            repo.close()
+        return ev
+
+
+def shared_tlc(d):
+    dot = os.path.join(d, "shared.dot")
+    runs = [("ConfigShared_mc.cfg", None, tlc.run("ConfigShared.tla", "ConfigShared_mc.cfg", workers=1, dump_dot=dot, timeout=300))]
+    for cfg, expect in (("ConfigShared_cached.cfg", "ReadFresh"), ("ConfigShared_cachedw.cfg", "WritePreserves"), ("ConfigShared_commit.cfg", "RefusedAtomic")):
+        runs.append((cfg, expect, tlc.run("ConfigShared.tla", cfg, workers=1, timeout=300)))
+    return runs, dot
+
+
+def judge_shared(ctx, d, records, label):
+    path = os.path.join(d, f"shared_{label}.ndjson")
+    with open(path, "w") as f:
+        for r in records:
+            f.write(json.dumps(r, separators=(",", ":")) + "\n")
+    cfg = os.path.join(d, f"shared_{label}.cfg")
+    tlc.write_cfg(cfg, spec="TraceSpec")
+    res = tlc.run("ConfigSharedTrace.tla", cfg, workers=4, timeout=900, env={"TRACE_FILE": path}, dump_states=cfg[:-4])
+    ctx.add_tlc(f"ConfigSharedTrace[{label}] ({len(records)} recorded histories)", res)
+    got = {v["tid"]: v for v in load_json_dump(cfg[:-4])}
+    if len(got) != len(records):
+        raise MachineryError(f"shared-file trace validation incomplete ({len(got)}/{len(records)})\n{res.output[-2000:]}")
+    return got
+
+
+def shared_phase(ctx, book, d, fut):
+    runs, dot = fut.result()
+    for cfg, expect, res in runs:
+        if expect is None:
+            ctx.add_tlc("ConfigShared (long-lived owner + external writers, same-size same-tick rewrites; refused rewrite)", res)
+        else:
+            ctx.add_tlc(f"{cfg} negative control, expects {expect}", res, require_ok=False)
+            if expect not in res.violated:
+                raise MachineryError(f"negative control {cfg} did not find {expect}\n{res.output[-1500:]}")
+    g = tlc.load_dot(dot)
+    for es in g.edges.values():
+        es.sort()
+    depth = ctx.pick(3, 4)
+    paths = []
+
+    def walk(n, labs, nodes):
+        if labs:
+            paths.append((list(labs), list(nodes)))
+        if len(labs) < depth:
+            for l, dst in g.edges.get(n, []):
+                walk(dst, labs + [l], nodes + [dst])
+    walk(g.init[0], [], [])
+    paths = [p for p in paths if len(p[0]) == depth]        # every behaviour of that length (shorter ones are their prefixes)
+    nw = 4
+    worlds = [SharedWorld(ctx, i) for i in range(nw)]
+
+    def work(i):
+        return [(j, worlds[i].run(paths[j][0])) for j in range(i, len(paths), nw)]
+    evs = {}
+    with cf.ThreadPoolExecutor(nw) as ex:
+        for part in ex.map(work, range(nw)):
+            evs.update(part)
+    records = []
+    for j, (labs, nodes) in enumerate(paths):
+        ev = evs[j]
+        ctx.count()
+        ctx.nontrivial(("shared", tuple(labs)))
+        for e, n in zip(ev, nodes):
+            st = g.nodes[n]
+            if list(st["file"]) != e["after"] or (e["op"] == "read" and st["last"]["ret"] != e["ret"]):
+                book.add_drift("shared/state", f"{labs}: after {e['op']} the file says {e['after']} (read returned {e['ret']}), ConfigShared {list(st['file'])}")
+                break
+        records.append({"tid": j + 1, "ev": ev})
+    verdicts = judge_shared(ctx, d, records, "graph")
+    bad = {}
+    for j, (labs, _) in enumerate(paths):
+        v = verdicts[j + 1]
+        ctx.validated()
+        if v["prop"] != "ok":
+            bad.setdefault((v["prop"], tuple(labs[:v["at"]])), records[j])
+    # shortest failing histories first; a history that extends a reported one is the same finding
+    for cl in ("ReadFresh", "WritePreserves", "RefusedAtomic"):
+        hs = sorted((h for c, h in bad if c == cl), key=lambda h: (len(h), h))
+        for h in hs[:3]:
+            rec = bad[(cl, h)]
+            e = rec["ev"][len(h) - 1]
+            ctx.violation(f"{SH_SITE[cl]}|{cl}|ops={'>'.join(x.replace(' ', '') for x in h)}",
+                          f"{cl} fails after the history {list(h)} on one .git/config shared by a long-lived Repo, git config and a second dulwich "
+                          f"handle (every rewrite keeps size and mtime): last event {e}",
+                          {"kind": "shared", "history": list(h), "clause": cl, "events": rec["ev"][:len(h)]})
+    ctx.cov["shared_file"] = {"states": len(g.nodes), "transitions": g.n_edges(), "depth": depth, "behaviours_replayed": len(paths),
+                              "failing": {cl: sum(1 for c, _ in bad if c == cl) for cl in SH_SITE}}
+    ctx.sample({"kind": "shared-file history", "ops": paths[len(paths) // 2][0], "events": evs[len(paths) // 2]})
+
+
+def replay_shared(ctx, obj):
+    w = SharedWorld(ctx, 0)
+    ev = w.run(obj["history"])
+    print(f"replay shared-file history  signature: {obj.get('signature')}")
+    for l, e in zip(obj["history"], ev):
+        print(f"  {l:16s} -> {e}")
+    v = judge_shared(ctx, ctx.tmpdir("tlc"), [{"tid": 1, "ev": ev}], "replay")[1]
+    print(f"  TLC verdict: {v}")
+    bad = v["prop"] != "ok"
+    print("  => " + (f"VIOLATION reproduced ({v['prop']} at event {v['at']})" if bad else "not reproduced on this tree"))
+    return 1 if bad else 0
+
+
 # --------------------------------------------------------------------------- model checking proper + negative controls
 def model_check(ctx, d, variant, pool):
     """(a) with the proposed repairs (FIXED variant) the three clauses are invariants of every configuration
@@ -947,6 +1158,7 @@ def run(ctx):
         mi = ctx.pick(2, 3)
         opsfut = pool.submit(ops_tlc, d, variant, mi, ctx.pick(2, 6))
         mc = model_check(ctx, d, variant, pool)
+        shfut = pool.submit(shared_tlc, d)
         # 1. the git automaton first, on hand-written files (dulwich's writer is not involved)
         for sp, ml in plan:
             if sp not in ("fval", "fhdr"):
@@ -971,6 +1183,9 @@ def run(ctx):
     # 3. histories
     records, meta, tid = ops_phase(ctx, book, opsfut, mi, variant, 0)
     ctx.log(f"histories: {ctx.cov['ops_replay']}")
+    # 3b. one file shared by a long-lived owner and external writers; refused rewrites
+    shared_phase(ctx, book, d, shfut)
+    ctx.log(f"shared file: {ctx.cov['shared_file']}")
     # 4. inputs TLC does not enumerate
     extra = sweep_cases()
     nsweep = len(extra)
@@ -1038,6 +1253,8 @@ def replay(ctx, path):
     obj = json.load(open(path))
     if obj.get("kind") == "history":
         return replay_history(ctx, obj)
+    if obj.get("kind") == "shared":
+        return replay_shared(ctx, obj)
     cfg = cfg_unhex(obj["cfg"])
     clause = obj.get("clause")
     print(f"replay {path}\n  signature: {obj.get('signature')}\n  configuration: {cfg_show(cfg)}")
